@@ -687,6 +687,11 @@ fn te_outp<P: TECurveConfig>(p: &te::Projective<P>) -> Arg {
     te_out(&p.into_affine())
 }
 
+/// T * Z == X * Y for every listed result (extended coordinates consistent)
+fn tzs<P: TECurveConfig>(l: &[te::Projective<P>]) -> Arg {
+    vec![from_bool(l.iter().all(|p| p.t * p.z == p.x * p.y))]
+}
+
 fn run_te<P: TECurveConfig>(op: &str, a: &[Arg]) -> Vec<Arg> {
     match op {
         "te_params" => {
@@ -699,12 +704,12 @@ fn run_te<P: TECurveConfig>(op: &str, a: &[Arg]) -> Vec<Arg> {
             let q = te_ext::<P>(&a[5]);
             let mut s = p;
             s += &q;
-            ok(vec![te_outp(&s), te_outp(&(p - q)), vec![from_bool(p == q)]])
+            ok(vec![te_outp(&s), te_outp(&(p - q)), vec![from_bool(p == q)], tzs(&[s, p - q])])
         },
         "te_mixed" => {
             let p = te_ext::<P>(&a[4]);
             let q = te_aff::<P>(&a[5]);
-            ok(vec![te_outp(&(p + q)), te_outp(&(p - q)), te_outp(&(q + p)), vec![from_bool(p == q)]])
+            ok(vec![te_outp(&(p + q)), te_outp(&(p - q)), te_outp(&(q + p)), vec![from_bool(p == q)], tzs(&[p + q, p - q, q + p])])
         },
         "te_unary" => {
             let p = te_ext::<P>(&a[4]);
@@ -714,6 +719,7 @@ fn run_te<P: TECurveConfig>(op: &str, a: &[Arg]) -> Vec<Arg> {
                 te_outp(&p),
                 vec![from_bool(p.is_zero())],
                 vec![from_bool(p.into_affine().is_on_curve())],
+                tzs(&[p.double(), -p]),
             ])
         },
         "te_affine" => {
@@ -726,6 +732,7 @@ fn run_te<P: TECurveConfig>(op: &str, a: &[Arg]) -> Vec<Arg> {
                 te_outp(&p.into_group()),
                 vec![from_bool(p.is_on_curve())],
                 vec![from_bool(p.is_zero())],
+                tzs(&[p + q, p - q, p.into_group()]),
             ])
         },
         "te_batch" => {
@@ -735,7 +742,7 @@ fn run_te<P: TECurveConfig>(op: &str, a: &[Arg]) -> Vec<Arg> {
         "te_sum" => {
             let v: Vec<te::Affine<P>> = a[4..].iter().map(te_aff::<P>).collect();
             let s: te::Projective<P> = v.iter().sum();
-            ok(vec![te_outp(&s)])
+            ok(vec![te_outp(&s), tzs(&[s])])
         },
         "te_on_curve" => ok(vec![vec![from_bool(te_aff::<P>(&a[4]).is_on_curve())]]),
         _ => unsupported(),
